@@ -64,6 +64,10 @@ Ops ==
   \cup {[T(N("rmidx"), b, p) EXCEPT !.i = i] : b \in Bases, p \in Paths, i \in 0..MaxIdx}
   \cup {[T(N("rmkey"), b, p) EXCEPT !.k = k] : b \in Bases, p \in Paths, k \in Keys}
   \cup {Sx(T(N("copy"), b, p), b2, p2) : b \in Bases, p \in Paths, b2 \in Bases, p2 \in Paths}
+  \cup (IF Profile = "strings"
+        THEN {[Sx(T(N("setprefix"), b, p), b2, p2) EXCEPT !.i = i] :
+                b \in Bases, p \in Paths, b2 \in Bases, p2 \in Paths, i \in 0..2}
+        ELSE {})
   \cup {Sx([N("docset") EXCEPT !.tb = "d", !.ti = d], b2, p2) :
           d \in DocIds, b2 \in Bases, p2 \in Paths}
   \cup {[N("docsetv") EXCEPT !.tb = "d", !.ti = d, !.v = v] : d \in DocIds, v \in Scalars}
